@@ -84,6 +84,11 @@ def generic(mod, pid, args, seed, t0):
   lock = report.load_lock()
   known = report.load_known()
   obls = [o for f in per_fn for o in f['obligations']]
+  if hasattr(mod, 'extra_obligations'):
+    from engine import smt
+    extra = mod.extra_obligations(repo)
+    smt.discharge(extra, timeout_s=5, phase2=False)
+    obls += extra
   names = [o.name for o in obls]
   failed = [o for o in obls if o.status != 'proved']
   problems = []     # (exit code, message)
@@ -148,6 +153,9 @@ def generic(mod, pid, args, seed, t0):
       for o in failed:
         print('  failed obligation: %s [%s] %s' % (o.name, o.status, o.detail))
       exit_code = 1
+    elif all(getattr(o, 'undecided_if_no_witness', False) for o in failed):
+      for o in failed:
+        problems.append((2, 'UNDECIDED property=%s obligation=%s reason=%s (native search found no failing input)' % (pid, o.name, o.detail)))
     else:
       for o in failed:
         payload = dict(property=pid, kind='failed-obligation', obligation=o.name,
@@ -203,7 +211,7 @@ def generic(mod, pid, args, seed, t0):
       wall_s=round(time.time() - t0, 2),
       violations=len(violations) + (len(failed) if not violations else 0),
   )
-  report.write_evidence(pid, ev)
+  report.write_evidence(pid, ev, scratch=(repo != '/repo'))
   print('%s: %d obligations, %d discharged, %d function(s), exit %d, %.1fs' % (
       pid, len(obls), ev['coverage']['discharged'], len(fns), exit_code, time.time() - t0))
   return exit_code
